@@ -311,6 +311,81 @@ theorem duplicate_payload_calls_again_without_guard :
       [.call 3 1 .payload 21 .fatal, .call 3 1 .payload 0 .fatal] ∧
     (run (wCfg' true fatalAt3) init dupFatalOps).ledger.filter (Entry.isCallOf 3 1) = [.call 3 1 .payload 0 .fatal] := by decide
 
+/-! ### the retry budget across restarts (deepening round 3) -/
+
+theorem cnt_zero_of_not_mem (s : Nat) (l : List Nat) (h : s ∉ l) : cnt s l = 0 := by
+  induction l with
+  | nil => rfl
+  | cons x l ih =>
+    simp only [cnt]
+    have hx : x ≠ s := fun e => h (e ▸ List.mem_cons_self)
+    rw [if_neg hx, ih (fun hm => h (List.mem_cons_of_mem _ hm))]
+
+theorem cnt_le_one_of_nodup (s : Nat) (l : List Nat) (h : l.Nodup) : cnt s l ≤ 1 := by
+  induction l with
+  | nil => simp [cnt]
+  | cons x l ih =>
+    obtain ⟨hx, hl⟩ := List.nodup_cons.mp h
+    simp only [cnt]
+    by_cases e : x = s
+    · subst e; rw [cnt_zero_of_not_mem x l hx]; simp
+    · have := ih hl; simp [e]; omega
+
+def isRestart : Op → Bool | .restart _ => true | _ => false
+/-- number of node starts (Network.Start) in a history -/
+def restarts (ops : List Op) : Nat := (ops.filter isRestart).length
+
+/-- a history whose Range orders (state.notify) and notifier lists (Network.Start) are duplicate-free, as `sync.Map.Range` /
+    `Notifiers()` deliver them -/
+def NodupOp : Op → Prop
+  | .afterCommit order => order.Nodup
+  | .restart order => order.Nodup
+  | _ => True
+
+theorem runCost_le (c : Cfg) (s : Nat) (ops : List Op) (h : ∀ op, op ∈ ops → NodupOp op) : runCost c s ops ≤ c.maxRetries * restarts ops := by
+  induction ops with
+  | nil => simp [runCost, restarts]
+  | cons op ops ih =>
+    have ih' := ih (fun o ho => h o (List.mem_cons_of_mem _ ho))
+    have hop := h op List.mem_cons_self
+    unfold runCost restarts at *
+    cases op with
+    | restart order =>
+      have := cnt_le_one_of_nodup s order hop
+      have hm : c.maxRetries * cnt s order ≤ c.maxRetries := by
+        rcases Nat.le_one_iff_eq_zero_or_eq_one.mp this with h0 | h1 <;> simp [*]
+      simp only [List.map_cons, List.sum_cons, opCost, List.filter_cons, isRestart, if_true, List.length_cons, Nat.mul_add, Nat.mul_one]
+      omega
+    | add a => simpa [opCost, isRestart, List.filter_cons] using ih'
+    | afterCommit order => simpa [opCost, isRestart, List.filter_cons] using ih'
+    | writePayload ref cf => simpa [opCost, isRestart, List.filter_cons] using ih'
+    | finishedExt s' r' f => simpa [opCost, isRestart, List.filter_cons] using ih'
+    | fire s' r' => simpa [opCost, isRestart, List.filter_cons] using ih'
+    | crash => simpa [opCost, isRestart, List.filter_cons] using ih'
+
+/-- **calls_bounded_across_restarts**: over ANY history (restarts at any point included - with or without a preceding stop,
+    admissions, duplicate payload messages, timers in any order, storage faults, Finished from outside) a typed persistent
+    subscriber is called for one event at most `maxRetries` times per run of the node: `maxRetries * (1 + number of starts)`.
+    `Run` replays every job once and starts at most one loop of `maxRetries - Retries - 1` attempts for it; jobs that spent
+    their budget or ended fatally get exactly the one replay call (potential-function invariant `Bud` with a budget that grows
+    by `maxRetries` per Run of that subscriber). -/
+theorem calls_bounded_across_restarts (c : Cfg) (hM : 1 ≤ c.maxRetries) (hskip : c.skipPresent = true) (hg : c.notifyGuarded = true)
+    (ops : List Op) (hops : ∀ op, op ∈ ops → NodupOp op) (s r : Nat) (t : EvType) (htyp : Typed c s t) :
+    attemptNo (run c init ops) s r ≤ c.maxRetries * (1 + restarts ops) := by
+  have hok : ∀ op, op ∈ ops → OkOp op := by
+    intro op ho; have := hops op ho; cases op <;> first | exact this | trivial
+  have h := Bud.runR hM hskip hg htyp ops hok init (Bud.init c s r t)
+  have hp := h.pot
+  have hc := runCost_le c s ops hops
+  unfold spent at hp
+  rw [Nat.mul_add, Nat.mul_one]
+  omega
+
+/-- the cost of a restart is real: one stop + start lets subscriber 3 be called once more although its job ended fatally -/
+example : attemptNo (run (wCfg' true fatalAt3) init (dupFatalOps ++ [.crash, .restart [0, 1, 2, 3, 4]])) 3 1 =
+    attemptNo (run (wCfg' true fatalAt3) init dupFatalOps) 3 1 + 1 := by decide
+example : NodupOp (.restart [0, 1, 2, 3, 4]) ∧ NodupOp (.afterCommit [0, 1, 2, 3, 4]) ∧ NodupOp .crash := by simp [NodupOp]
+
 /-- the same for the constant the source has today (`Facts.C14.maxRetries`, used by the driver): a changed budget re-proves or fails -/
 theorem retry_attempts_machine_source (retries : Int) (hlo : -9223372036854775808 ≤ retries) (hhi : retries < 9223372036854775808) :
     retryAttemptsM (Int.ofNat Facts.C14.maxRetries) retries =
